@@ -428,9 +428,36 @@ class SPredSet:
         self.fn, self.name = fn, name
 
 
+class Spread:
+    """an item of an XList that stands for all the elements of a symbolic sequence, in order (the list was extended by it)"""
+    def __init__(self, pipe):
+        self.pipe = pipe
+
+    def __repr__(self):
+        return f'*{getattr(getattr(self.pipe, "src", None), "name", "?")}'
+
+
 class XList:
     """A mutable list object: the elements of an immutable symbolic base sequence (possibly none) followed by finitely many
-    appended items.  Identity is Python identity (aliasing is preserved); a mutation of a pre-existing XList is a frame event."""
+    appended items; an item may be a Spread (a whole symbolic sequence spliced in).  Identity is Python identity (aliasing is
+    preserved); a mutation of a pre-existing XList is a frame event."""
+
+    def has_spread(self):
+        return any(isinstance(x, Spread) for x in self.items)
+
+    def segments(self):
+        """[('pipe', SSeq) | ('items', [values])] in order"""
+        out = []
+        if self.base is not None:
+            out.append(('pipe', self.base))
+        for x in self.items:
+            if isinstance(x, Spread):
+                out.append(('pipe', x.pipe))
+            elif out and out[-1][0] == 'items':
+                out[-1][1].append(x)
+            else:
+                out.append(('items', [x]))
+        return out
 
     def __init__(self, base=None, items=None, prestate=True):
         self.base = base
